@@ -52,7 +52,7 @@ def main():
     for bp in sorted(glob.glob(os.path.join(env.VERIF, "baseline", "*.json.gz"))):
         name = os.path.basename(bp)[: -len(".json.gz")]
         b = findings.load_baseline(name)
-        prop = name
+        prop = name.split(".")[0]
         counts, best = {}, {}
         for case, sig in b["map"].items():
             for a in findings.atoms(sig):
@@ -89,7 +89,7 @@ def main():
                 print("no witness for", prop, sig)
                 continue
             out.append({
-                "id": f"{prop}-{n:03d}",
+                "id": f"{name}-{n:03d}",
                 "property": prop,
                 "status": "known",
                 "signature": sig,
